@@ -541,6 +541,12 @@ fn decorate(rng: &mut Rng, p: &mut Program) -> (bool, bool) {
             );
             nonascii = true;
         }
+        if rng.pct(12) {
+            // numeric literals of every spelling in front of references (their listed width matters
+            // to the splice columns); all are fixed points of listing
+            let s = *rng.pick(&["Z=&17", "Z=&H1F", "Z=&7:Z=&17", "Z=1E+10", "Z=1.5D0", "Z#=1#", "Z=1!", "Z%=&7", "Z=&17+&H1F-&7"]);
+            l.stmts.insert(0, Stmt::Raw(s.to_string()));
+        }
     }
     // a line at the 1024-character limit whose reference gains digits when renumbered
     if rng.pct(4) && p.lines.len() >= 2 {
@@ -706,7 +712,7 @@ impl Property for C14 {
         }
     }
     fn rule(&self) -> &'static str {
-        "one evaluation = a generated link-clean program (GOTO, GOSUB, IF..THEN n / ELSE n / IF..GOTO n, ON..GOTO, ON..GOSUB, RESTORE n, and on unreachable lines RUN n, LIST / DELETE in all range forms and bare; decoy numbers in PRINT, DATA, strings and remarks; non-ASCII literals in front of references; line 0; lines up to 65529) typed into the real runtime, optionally a get_listing() snapshot held, then RENUM in one of its eight argument forms with valid, overflowing, reordering, step-0 and out-of-range operands (5%: as the first program line + RUN; 5%: on a program with a dangling reference); verdict = (error reported AND listing unchanged) OR (no error AND listing equals the model renumbering of the AST, lines are found under their new numbers by LIST n and by the completion lookup, and typing a new number replaces that line), then RUN of original (fresh twin) and renumbered program with transcripts and final variables equal modulo the line map; distinct = distinct API/event log fingerprint; non-trivial = RENUM reached its verdict"
+        "one evaluation = a generated link-clean program (GOTO, GOSUB, IF..THEN n / ELSE n / IF..GOTO n, ON..GOTO, ON..GOSUB, RESTORE n, and on unreachable lines RUN n, LIST / DELETE in all range forms and bare; decoy numbers in PRINT, DATA, strings and remarks; non-ASCII literals and octal / hex / exponent / typed numeric literals in front of references; line 0; lines up to 65529) typed into the real runtime, optionally a get_listing() snapshot held, then RENUM in one of its eight argument forms with valid, overflowing, reordering, step-0 and out-of-range operands (5%: as the first program line + RUN; 5%: on a program with a dangling reference); verdict = (error reported AND listing unchanged) OR (no error AND listing equals the model renumbering of the AST, lines are found under their new numbers by LIST n and by the completion lookup, and typing a new number replaces that line), then RUN of original (fresh twin) and renumbered program with transcripts and final variables equal modulo the line map; distinct = distinct API/event log fingerprint; non-trivial = RENUM reached its verdict"
     }
     fn assumptions(&self) -> Vec<&'static str> {
         vec![
